@@ -606,11 +606,12 @@ impl fmt::Display for VariableType {
                 (0.0, f64::INFINITY) => "NonNegativeReal".to_string(),
                 _ => format!(
                     "NonNegativeReal({}, {})",
-                    min,
+                    // `+ 0.0` turns a negative zero (printed as `-0`) into `0`
+                    min + 0.0,
                     if *max == f64::INFINITY {
                         "Infinity".to_string()
                     } else {
-                        max.to_string()
+                        (max + 0.0).to_string()
                     }
                 ),
             },
@@ -621,12 +622,12 @@ impl fmt::Display for VariableType {
                     if *min == f64::NEG_INFINITY {
                         "MinusInfinity".to_string()
                     } else {
-                        min.to_string()
+                        (min + 0.0).to_string()
                     },
                     if *max == f64::INFINITY {
                         "Infinity".to_string()
                     } else {
-                        max.to_string()
+                        (max + 0.0).to_string()
                     }
                 ),
             },
